@@ -229,6 +229,7 @@ def check_batch(cfg, batch):
 
 
 REJECT = (ValueError, AssertionError, NotImplementedError)
+_JJ = []
 
 
 def _ctor_cfg(kind, method, dom, n, key):
@@ -279,8 +280,13 @@ def run_case(case):
     sizes = [(s.n, s.b) for s in gens.streams(cfg, g0)]
     depth = max(2 * math.ceil(n / b) + 2 for n, b in sizes)
 
+    jitted = cfg["kind"] in ("ode", "statio", "nonstatio") and (sum(map(ord, str(sorted(cfg.items())))) % 3 == 0)
+    if jitted and not _JJ:
+        import jax
+        _JJ.append(jax.jit(lambda gg: gg.get_batch()))  # the way jinns.solve jits its draws
+
     def step(g, op, hist):
-        g2, batch = g.get_batch()
+        g2, batch = (_JJ[0](g) if jitted else g.get_batch())
         v, _ = check_state(cfg, g2)
         v += check_batch(cfg, batch)
         return g2, v
